@@ -142,18 +142,26 @@ Definition combine_rounds (ntot : nat) (rounds : list (list (option chain))) : l
 Record library := mk_lib { l_uniq : list sid; l_match : list nat; l_subs : list chain }.
 
 (* check_results, rank-0 tail: to_change = function indices whose map could not be verified (oracle)
-     new_fun = [all_equations[r0] for r0 in to_change]
+     old_match = {f: i for i, f in enumerate(uniq_fun)}
+     new_fun = [all_equations[r0] for r0 in to_change if all_equations[r0] not in old_match]
      new_uniq, new_match = get_unique_indexes(new_fun)
      unique file := uniq_fun + list(new_uniq.keys())
      inv_subs[r0] = ""  for r0 in to_change
-     matches[to_change[i]] = nuniq + new_match[new_fun[i]] *)
+     matches[r0] = old_match[own] if own in old_match else nuniq + new_match[own]     (own = all_equations[r0]) *)
+Definition old_match_of (uniq_fun : list N) : list (N * nat) :=
+  fold_left (fun d iv => dset N.eqb (snd iv) (fst iv) d) (enumerate uniq_fun) [].
 Definition unmerge (E : list sid) (lib : library) (to_change : list nat) : library :=
-  let new_fun := map (fun r => nth r E 0%N) to_change in
+  let old_match := old_match_of (l_uniq lib) in
+  let own r := nth r E 0%N in
+  let new_fun := map own (filter (fun r => negb (dmem N.eqb (own r) old_match)) to_change) in
   let new_uniq_fun := uniq_keys N.eqb new_fun in
   let new_match := gui_match N.eqb new_fun in
   let nu := length (l_uniq lib) in
   mk_lib (l_uniq lib ++ new_uniq_fun)
-         (scatter (map (fun r => (r, nu + match dget N.eqb (nth r E 0%N) new_match with Some m => m | None => 0 end)) to_change)
+         (scatter (map (fun r => (r, match dget N.eqb (own r) old_match with
+                                     | Some j => j
+                                     | None => nu + match dget N.eqb (own r) new_match with Some m => m | None => 0 end
+                                     end)) to_change)
                   (l_match lib))
          (scatter (map (fun r => (r, [])) to_change) (l_subs lib)).
 
